@@ -8,6 +8,7 @@ import (
 	goio "io"
 	"os"
 	"regexp"
+	"sort"
 	"strings"
 
 	"github.com/evolbioinfo/gotree/acr"
@@ -105,8 +106,13 @@ randomly before going deeper in the tree.
 			f.WriteString(t.Tree.Newick() + "\n")
 			fmt.Fprintf(outstepsf, "steps %d\n", nsteps)
 			if outresfile != "none" {
-				for k, v := range statemap {
-					resfile.WriteString(fmt.Sprintf("%s,%s\n", k, v))
+				names := make([]string, 0, len(statemap))
+				for k := range statemap {
+					names = append(names, k)
+				}
+				sort.Strings(names)
+				for _, k := range names {
+					resfile.WriteString(fmt.Sprintf("%s,%s\n", k, statemap[k]))
 				}
 			}
 		}
